@@ -130,6 +130,33 @@ pub fn build_complex<R: KhRing>(l: &Link, h: &R, t: &R, reduced: bool, cfg: &Bui
     b.into_kh_complex()
 }
 
+/// divide-and-conquer build over an arbitrary commutative ring (used for the polynomial-parameter complexes of C05)
+pub fn build_complex_split<R>(l: &Link, h: &R, t: &R, reduced: bool, split: Option<usize>) -> KhComplex<R>
+where R: yui::Ring, for<'x> &'x R: yui::RingOps<R> {
+    let Some(m) = split else { return KhComplex::new(l, h, t, reduced) };
+    let base_pt = if reduced { l.first_edge() } else { None };
+    let xs = l.data().clone();
+    let n = xs.len();
+    let mut order: Vec<usize> = (0..n).collect();
+    let m = m.min(n);
+    if let Some(e) = base_pt { if let Some(pos) = order.iter().position(|&k| xs[k].edges().contains(&e)) { let k = order.remove(pos); order.insert(0, k); } }
+    let signs = l.crossing_signs();
+    let total = KhComplex::<R>::deg_shift_for(l, reduced);
+    let right = order[m..].iter().fold((0isize, 0isize), |(a, b), &k| if signs[k] == yui::Sign::Neg { (a - 1, b - 2) } else { (a, b + 1) });
+    let left = (total.0 - right.0, total.1 - right.1);
+    let mut b1 = TngComplexBuilder::init(h, t, left, base_pt);
+    b1.set_crossings(order[..m].iter().map(|&k| xs[k].clone()));
+    b1.process_all();
+    let mut b2 = TngComplexBuilder::init(h, t, right, None);
+    b2.set_crossings(order[m..].iter().map(|&k| xs[k].clone()));
+    b2.process_all();
+    let mut c = b1.into_tng_complex();
+    c.connect(b2.into_tng_complex());
+    let mut b = TngComplexBuilder::from(c);
+    b.finalize();
+    b.into_kh_complex()
+}
+
 pub fn kh_total<R: KhRing>(l: &Link, h: i64, t: i64, reduced: bool, cfg: &BuildCfg) -> Total where for<'x> &'x R: EucRingOps<R> {
     let c = build_complex::<R>(l, &R::from_i(h), &R::from_i(t), reduced, cfg);
     total_of(&KhHomology::from(&c))
